@@ -89,3 +89,13 @@ claim('C12',
       'Bounds: name/value lengths and element counts in evidence.bounds; currently the Set handler; Get/Subscribe/admin handlers are covered by '
       'C03/C19 harnesses where registered. std-lib / protobuf / regexp-matching internals outside. Trusted: go/ssa, executor, z3.',
       'SSA symbolic execution, panic-site obligations + SMT (z3)', 'DESIGN.md 6/C12')
+claim('C18',
+      'Real tree.PrunePathValues/PrunePathMap (v2 and v3) over a 12-node universe (containers, sibling leaves sharing a textual prefix, '
+      'single-key list with keys 1/10 and an explicit key leaf, two-key list) with SYMBOLIC presence and tombstone bits: z3 proves the output '
+      'is exactly the live paths (+ top-most tombstones), liveness computed from parsed elements. Real BuildTree/addPathToTree/'
+      'handleLeafValue: one case per presence shape (case split), leaf values symbolic: the value handed to the JSON encoder contains a '
+      'leaf iff it is live with its value, one list entry per live key set, two-key entries neither merged nor split.',
+      'encoding/json not executed (tree observed before marshalling; natively replayed through real json); reflect.ValueOf(..).Kind/Int/'
+      'Uint/Bool/String modelled on the dynamic type; sort.Slice = compare-exchange network with the real less closure; universe bound '
+      '(<= 5 paths per case). Trusted: go/ssa, executor, z3.',
+      'SSA symbolic execution + SMT (z3) over a symbolic presence universe; case-split shapes for the tree', 'DESIGN.md 6/C18')
